@@ -19,7 +19,7 @@
    one channel's answer should be as a function of that channel's map alone. *)
 From Coq Require Import List ZArith QArith Qabs Qreals Reals Bool Arith.
 Import ListNotations.
-From SV Require Import C06.Peaks C06.Lemmas C06.PatchP C07.Global C07.Lemmas C07.PatchP C07.GaussR C07.GaussE C07.Border C07.Layer C07.LayerLemmas.
+From SV Require Import C06.Peaks C06.Lemmas C06.PatchP C07.Global C07.Lemmas C07.PatchP C07.GaussR C07.GaussE C07.Border C07.Layer C07.LayerLemmas C07.SymQeq C07.GaussP3.
 
 Section Rationals.
 Local Open Scope Q_scope.
@@ -496,3 +496,133 @@ Example ex_c07_layer_threshold_equal_max_and_above :
   | _ => false
   end = true.
 Proof. vm_compute. reflexivity. Qed.
+
+(* ------------------------------------------------------------------ *)
+(* Round 6 (proofs: C07/SymQeq.v): clause (f) with the symmetry of the cells stated as
+   equality of NUMBERS (`==`), not of representations (`=`): `window_symmetric_eq` /
+   `in_map_symmetric_eq` are `window_symmetric` / `in_map_symmetric` with `==` for `=`.
+   The Leibniz versions above are special cases (`c07_symmetry_leibniz_implies_eq`); the
+   converse fails for a map written with non-reduced fractions. *)
+Section SymmetricUpToQeq.
+Local Open Scope Q_scope.
+
+Theorem c07_symmetry_leibniz_implies_eq : forall m y x r,
+  (window_symmetric m y x r -> window_symmetric_eq m y x r) /\
+  (in_map_symmetric m y x r -> in_map_symmetric_eq m y x r).
+Proof. intros. split; [apply window_symmetric_is_eq | apply in_map_symmetric_is_eq]. Qed.
+
+(* zero-padded window (radius p/2) point-symmetric up to == => exactly unmoved, every p *)
+Theorem c07_zero_padded_symmetric_unmoved_any_patch_qeq : forall m x y p px py,
+  window_symmetric_eq m y x (p / 2) -> refine_at_p m x y p = Some (px, py) ->
+  px == inject_Z (Z.of_nat x) /\ py == inject_Z (Z.of_nat y).
+Proof. exact refine_symmetric_unmoved_p_eq. Qed.
+
+(* the radius model (odd sizes) *)
+Theorem c07_zero_padded_symmetric_unmoved_qeq : forall m x y r px py,
+  window_symmetric_eq m y x r -> refine_at m x y r = Some (px, py) ->
+  px == inject_Z (Z.of_nat x) /\ py == inject_Z (Z.of_nat y).
+Proof. exact refine_symmetric_unmoved_eq. Qed.
+
+(* (f) PARTIAL (outside F25 and F9) about `global_single_p` / `refine_at_p`, symmetry asked
+   of the map's cells only and up to == *)
+Theorem c07_symmetric_unmoved_qeq_partial : forall H W m fixed thr p x y v,
+  rect_map H W m -> (1 <= p)%nat -> global_rough fixed m thr = (Some (x, y), v) ->
+  selector_F25 m y x p = false -> selector_F9_p m y x p = false ->
+  in_map_symmetric_eq m y x (p / 2) ->
+  exists px py, global_single_p fixed thr (Some p) m = (Some (px, py), v) /\
+    px == inject_Z (Z.of_nat x) /\ py == inject_Z (Z.of_nat y).
+Proof. exact symmetric_unmoved_inside_eq. Qed.
+
+Theorem c07_refine_at_symmetric_unmoved_qeq_partial : forall H W m p x y,
+  rect_map H W m -> (1 <= p)%nat ->
+  selector_F25 m y x p = false -> selector_F9_p m y x p = false ->
+  in_map_symmetric_eq m y x (p / 2) ->
+  exists px py, refine_at_p m x y p = Some (px, py) /\
+    px == inject_Z (Z.of_nat x) /\ py == inject_Z (Z.of_nat y).
+Proof. exact refine_symmetric_unmoved_inside_eq. Qed.
+
+(* the cross [[0,1,0],[1,4,1],[0,1,0]] written as [[0,2/2,0],[1,8/2,4/4],[0,3/3,0]]: NOT
+   symmetric in the Leibniz sense (so the earlier theorems say nothing about it), symmetric
+   up to ==, refinement defined for p = 3 and p = 2 and exactly unmoved *)
+Example ex_c07_unreduced_fractions :
+  ~ window_symmetric unreduced_bump 1 1 1 /\ ~ in_map_symmetric unreduced_bump 1 1 1 /\
+  window_symmetric_eq unreduced_bump 1 1 1 /\ in_map_symmetric_eq unreduced_bump 1 1 1 /\
+  (exists px py, refine_at_p unreduced_bump 1 1 3 = Some (px, py) /\ px == 1 /\ py == 1) /\
+  (exists px py, refine_at_p unreduced_bump 1 1 2 = Some (px, py) /\ px == 1 /\ py == 1).
+Proof.
+  split; [exact unreduced_not_leibniz|]. split; [exact unreduced_not_in_map_leibniz|].
+  split; [exact unreduced_symmetric_eq|]. split; [exact unreduced_in_map_symmetric_eq|].
+  destruct unreduced_defined as [[px [py E3]] [px' [py' E2]]]. split.
+  - exists px, py. split; auto. apply (unreduced_unmoved 3 px py); auto.
+  - exists px', py'. split; auto. apply (unreduced_unmoved 2 px' py'); auto.
+Qed.
+
+(* (b) which maximal cell, as ONE order statement (current tree): the reported cell attains
+   the maximum and is the first such cell in column-major order (smallest x, then smallest
+   y); hence the answer is determined by the map *)
+Theorem c07_reported_cell_first_column_major : forall H W m,
+  rect_map H W m -> (0 < H)%nat -> (0 < W)%nat ->
+  forall thr x y v, global_rough true m thr = (Some (x, y), v) ->
+  attains m y x v /\
+  forall i j, attains m i j v -> (x < j)%nat \/ (x = j /\ (y <= i)%nat).
+Proof. exact rough_fixed_first_colmajor. Qed.
+
+Theorem c07_reported_cell_determined : forall H W m,
+  rect_map H W m -> (0 < H)%nat -> (0 < W)%nat ->
+  forall thr x y v x' y', global_rough true m thr = (Some (x, y), v) ->
+  attains m y' x' v ->
+  (forall i j, attains m i j v -> (x' < j)%nat \/ (x' = j /\ (y' <= i)%nat)) ->
+  x = x' /\ y = y'.
+Proof. exact rough_fixed_determined. Qed.
+End SymmetricUpToQeq.
+
+Print Assumptions c07_symmetry_leibniz_implies_eq.
+Print Assumptions c07_zero_padded_symmetric_unmoved_any_patch_qeq.
+Print Assumptions c07_zero_padded_symmetric_unmoved_qeq.
+Print Assumptions c07_symmetric_unmoved_qeq_partial.
+Print Assumptions c07_refine_at_symmetric_unmoved_qeq_partial.
+Print Assumptions ex_c07_unreduced_fractions.
+Print Assumptions c07_reported_cell_first_column_major.
+Print Assumptions c07_reported_cell_determined.
+
+(* ------------------------------------------------------------------ *)
+(* Round 6 (proofs: C07/GaussP3.v, analytic: mean value theorem, no interval arithmetic; only
+   the axioms of the classical reals): clause (g2) "the error does not grow" on an exact
+   Gaussian for patch size 3 and patch size 2 and EVERY sigma <> 0 (sigma < 1/2 included),
+   both signs of the displacement.  Interior peaks (formula on an unclipped window).
+   Still PARTIAL: sizes 5, 7 with sigma < 1/2, sizes > 7 below the large-sigma bound, even
+   sizes >= 4. *)
+Section GaussSmallPatches.
+Local Open Scope R_scope.
+
+Theorem c07_gaussian_error_does_not_grow_p3_all_sigma : forall sigma ax ay, sigma <> 0 ->
+  (0 < ax <= 1/2 -> 0 < offx_R (gauss sigma ax ay) 1 <= 2 * ax /\
+                    Rabs (offx_R (gauss sigma ax ay) 1 - ax) <= ax) /\
+  (0 < ay <= 1/2 -> 0 < offy_R (gauss sigma ax ay) 1 <= 2 * ay /\
+                    Rabs (offy_R (gauss sigma ax ay) 1 - ay) <= ay).
+Proof. exact gauss_no_overshoot_p3. Qed.
+
+Theorem c07_gaussian_error_does_not_grow_p3_all_sigma_negative : forall sigma ax ay, sigma <> 0 ->
+  (- (1/2) <= ax < 0 -> 2 * ax <= offx_R (gauss sigma ax ay) 1 < 0 /\
+                        Rabs (offx_R (gauss sigma ax ay) 1 - ax) <= - ax) /\
+  (- (1/2) <= ay < 0 -> 2 * ay <= offy_R (gauss sigma ax ay) 1 < 0 /\
+                        Rabs (offy_R (gauss sigma ax ay) 1 - ay) <= - ay).
+Proof. exact gauss_no_overshoot_p3_negative. Qed.
+
+(* size 2 (four half-pixel samples): the offset has the sign of the displacement and is at
+   most HALF of it, so the error shrinks but never below half the displacement *)
+Theorem c07_gaussian_error_does_not_grow_p2_all_sigma : forall sigma ax ay, sigma <> 0 ->
+  (0 < ax <= 1/2 -> 0 < offx_P (gauss sigma ax ay) 2 <= ax / 2 /\
+                    Rabs (offx_P (gauss sigma ax ay) 2 - ax) <= ax) /\
+  (- (1/2) <= ax < 0 -> ax / 2 <= offx_P (gauss sigma ax ay) 2 < 0 /\
+                    Rabs (offx_P (gauss sigma ax ay) 2 - ax) <= - ax) /\
+  (0 < ay <= 1/2 -> 0 < offy_P (gauss sigma ax ay) 2 <= ay / 2 /\
+                    Rabs (offy_P (gauss sigma ax ay) 2 - ay) <= ay) /\
+  (- (1/2) <= ay < 0 -> ay / 2 <= offy_P (gauss sigma ax ay) 2 < 0 /\
+                    Rabs (offy_P (gauss sigma ax ay) 2 - ay) <= - ay).
+Proof. exact gauss_no_overshoot_p2. Qed.
+End GaussSmallPatches.
+
+Print Assumptions c07_gaussian_error_does_not_grow_p3_all_sigma.
+Print Assumptions c07_gaussian_error_does_not_grow_p3_all_sigma_negative.
+Print Assumptions c07_gaussian_error_does_not_grow_p2_all_sigma.
